@@ -333,6 +333,33 @@ class MuChannel:
                                        tx].set_pathloss(pathloss_matrix[rx,
                                                                         tx])
 
+    @staticmethod
+    def _prepare_signals(signal, num_tx: int):  # type: ignore
+        """
+        Check that `signal` has the signal of each of the `num_tx`
+        transmitters, before any link transmits.
+
+        `signal` can be a numpy array (one row, or 2D array, for each
+        transmitter; a single 1D array if there is only one transmitter) or
+        a list of numpy arrays (one for each transmitter, which may differ
+        in type and, for single antenna transmitters, be 1D or `1 x N`).
+        """
+        if isinstance(signal, np.ndarray):
+            if num_tx == 1 and signal.ndim == 1:
+                signal = np.reshape(signal, (1, -1))
+            if signal.ndim < 2:
+                raise ValueError("`signal` must contain the signals of the "
+                                 "{0} transmitters".format(num_tx))
+        if len(signal) != num_tx:
+            raise ValueError("`signal` must contain the signals of the "
+                             "{0} transmitters".format(num_tx))
+        if not isinstance(signal, np.ndarray):
+            if any(np.ndim(s) == 0 for s in signal) or len(
+                    {np.shape(s)[-1] for s in signal}) != 1:
+                raise ValueError("All transmitters must send the same "
+                                 "number of symbols")
+        return signal
+
     def corrupt_data(self, signal: np.ndarray) -> np.ndarray:
         """
         Corrupt data passed through the TDL channels of each link.
@@ -361,13 +388,7 @@ class MuChannel:
         num_rx, num_tx = su_siso_channels.shape
         outputs = np.empty(num_rx, dtype=object)
 
-        if num_tx == 1 and signal.ndim == 1:
-            signal = np.reshape(signal, (1, -1))
-
-        # One signal per transmitter, checked before any link transmits
-        if np.ndim(signal) < 2 or len(signal) != num_tx:
-            raise ValueError("`signal` must contain the signals of the "
-                             "{0} transmitters".format(num_tx))
+        signal = self._prepare_signals(signal, num_tx)
 
         for rx in range(num_rx):
             suchannel = su_siso_channels[rx, 0]
@@ -428,13 +449,7 @@ class MuChannel:
         num_rx, num_tx = su_siso_channels.shape
         outputs = np.empty(num_rx, dtype=object)
 
-        if num_tx == 1 and signal.ndim == 1:
-            signal = np.reshape(signal, (1, -1))
-
-        # One signal per transmitter, checked before any link transmits
-        if np.ndim(signal) < 2 or len(signal) != num_tx:
-            raise ValueError("`signal` must contain the signals of the "
-                             "{0} transmitters".format(num_tx))
+        signal = self._prepare_signals(signal, num_tx)
 
         for rx in range(num_rx):
             suchannel = su_siso_channels[rx, 0]
